@@ -16,6 +16,12 @@ def enabled() -> bool:
     return os.environ.get("DAF_RELATION_VMON") == "1"
 
 
+def require():
+    """Checks whose verdict depends on hooks must not run with monitors disabled."""
+    if not enabled():
+        raise RuntimeError("monitors disabled: DAF_RELATION_VMON=1 is required (run through ./vcheck)")
+
+
 def wrap_method(cls, name, make_wrapper, key=None):
     """Replace ``cls.name`` (which must be defined on ``cls`` itself or inherited)
     by ``make_wrapper(original)``; idempotent per (cls, name, key)."""
